@@ -56,6 +56,34 @@ def client_program(rng, nthreads, nops, cells=2, slots=3, maxheld=None, guard_op
 # ---------------------------------------------------------------------------------------------------------------
 MODEL_HARNESSES = [('ebr', (), False, ''), ('hp', ('XV_RECL=HPs<3>',), False, ''), ('qsbr', ('XV_RECL=QSBR',), False, ''), ('lfrc', ('XV_RECL=LFRC', 'XV_DEFAULT_DELETER'), False, ''), ('he', (), False, '')]
 
+GEBR_ALIASES = {'EBR': '_ebr', 'NEBR': '_nebr', 'DEBRA': '_debra', 'EBR0': '_ebr0', 'GEBR_lazy': '_glazy', 'GEBR_n2': '_gn2', 'GEBR_aband': '_gab', 'GEBR_thresh': '_gth', 'GEBR_t0': '_gt0'}
+GEBR_QUICK = ['NEBR', 'DEBRA', 'GEBR_thresh', 'GEBR_n2']
+def gebr_harnesses(tier):
+    """harness/h_gebr.cpp: the generic client for one generic_epoch_based configuration with named statics (model Model/GebrDefs.v)"""
+    return [('gebr', ('XV_RECL=%s' % a,), False, GEBR_ALIASES[a]) for a in (sorted(GEBR_ALIASES) if tier == 'thorough' else GEBR_QUICK)]
+def gebr_model_program(rng, recl):
+    nth = rng.choice([2, 3, 3]); ncells = rng.choice([1, 2, 2]); nslots = rng.choice([1, 2, 3])
+    prog = []
+    for _ in range(nth):
+        ops = []
+        for _ in range(rng.randint(1, 7)):
+            k = rng.random(); c = rng.randrange(ncells); s_ = rng.randrange(nslots)
+            if k < 0.3: ops.append('repl %d' % c)
+            elif k < 0.38: ops.append('clear %d' % c)
+            elif k < 0.62: ops.append('read %d' % c)
+            elif k < 0.80: ops.append('hold %d %d' % (c, s_))
+            elif k < 0.92: ops.append('drop %d' % s_)
+            else: ops.append('deref %d' % s_)
+        for _ in range(rng.choice([0, 0, 1, 1, 2])):   # enter/leave always paired
+            i = rng.randrange(len(ops) + 1); ops.insert(i, 'enter'); ops.insert(rng.randrange(i + 1, len(ops) + 1), 'leave')
+        prog.append(ops)
+    return ({'cells': str(ncells), 'slots': str(nslots), 'flushes': '40', 'recl': recl}, prog)
+GEBR_FIXED = {
+ 'GEBR_n2': ({'cells': '1', 'slots': '2', 'flushes': '40', 'recl': 'GEBR_n2'}, [['enter', 'repl 0', 'leave'], ['clear 0', 'enter', 'leave', 'read 0', 'hold 0 1'], ['drop 0', 'deref 0', 'repl 0', 'enter', 'leave']]),
+ 'GEBR_thresh': ({'cells': '1', 'slots': '1', 'flushes': '40', 'recl': 'GEBR_thresh'}, [['repl 0', 'enter', 'repl 0', 'read 0', 'leave', 'repl 0', 'read 0', 'deref 0'], ['enter', 'drop 0', 'enter', 'leave', 'leave'], ['read 0', 'deref 0', 'enter', 'leave', 'repl 0', 'read 0', 'repl 0']]),
+ 'GEBR_aband': ({'cells': '2', 'slots': '2', 'flushes': '40', 'recl': 'GEBR_aband'}, [['hold 0 0', 'drop 1', 'hold 1 1', 'drop 0', 'repl 0', 'enter', 'leave', 'deref 1'], ['repl 0', 'hold 1 1', 'repl 1', 'enter', 'read 1', 'leave'], ['repl 1', 'repl 0', 'repl 1', 'repl 1', 'repl 1', 'clear 0', 'hold 0 0', 'enter', 'leave']]),
+}
+
 def model_program(rng, with_exit, regions=False):
     nth = rng.choice([2, 3, 3]); ncells = rng.choice([1, 2, 2]); nslots = rng.choice([1, 2, 3])
     prog = []
@@ -117,6 +145,12 @@ def model_ties(ctx, do_correspondence, tie_broken_sig):
         cases = LFRC_FIXED + [model_program(rng, False) for _ in range(k)]
         st = do_correspondence(ctx, 'lfrc', Hs.pop('lfrc'), cases, 8 if thorough else 4, 'lock_free_ref_count')
         tie = tie or tie_broken_sig(st, 'lfrc')
+    for alias, sfx in sorted(GEBR_ALIASES.items()):
+        hn = 'gebr' + sfx
+        if hn in Hs:
+            cases = ([GEBR_FIXED[alias]] if alias in GEBR_FIXED else []) + [gebr_model_program(rng, alias) for _ in range(4 if thorough else 2)]
+            st = do_correspondence(ctx, 'gebr', Hs.pop(hn), cases, 6 if thorough else 4, 'generic_epoch_based[%s]' % alias)
+            tie = tie or tie_broken_sig(st, 'gebr')
     if 'he' in Hs:
         cases = HE_FIXED + [model_program(rng, True) for _ in range(k)]
         for cfg, prog in cases: cfg['flushes'] = '2'
